@@ -427,6 +427,29 @@ mod lattice {
 }
 fn main() { assert_type_info::<strict::Pair<u8, bool>>(); assert_type_info::<strict::Event<'static, NoInfo, u8>>(); assert_type_info::<lattice::Both<u8, NoInfo>>(); }
 """, about="the generated impl of a generic definition relies on no name in scope at the definition site (no prelude; `Some` / `None` shadowed)")
+case("c13_const_default", "C13", "R13.5", "pass", """
+#[derive(TypeInfo)] struct Buffer<T, const N: usize = 4> { items: [T; N] }
+#[derive(TypeInfo)] #[scale_info(skip_type_params(T))] enum Slots<T, const N: usize = 2, const M: u8 = 7> { Used([u8; N]), Free(PhantomData<T>) }
+fn main() { assert_type_info::<Buffer<u8>>(); assert_type_info::<Buffer<u8, 9>>(); assert_type_info::<Slots<NoInfo>>(); }
+""", about="const parameters with defaults: a default belongs to the declaration and must not be repeated in the impl header")
+case("c13_borrowed_assoc", "C13", "R13.5", "pass", """
+trait Config { type Balance; type Hash; }
+#[derive(TypeInfo)] struct Runtime;
+impl Config for Runtime { type Balance = u64; type Hash = [u8; 32]; }
+#[derive(TypeInfo)] struct Snapshot<'a, T: Config> { free: &'a T::Balance, reserved: &'a <T as Config>::Balance, roots: &'a [T::Hash] }
+#[derive(TypeInfo)] enum Event<'a, T> where T: Config { Transfer(&'a T::Balance, &'a T::Balance), Sealed { hash: &'a <T as Config>::Hash }, Idle }
+#[derive(TypeInfo)] #[scale_info(skip_type_params(T))] struct Proof<'a, T: Config> { path: &'a [T::Hash], marker: PhantomData<T> }
+fn main() { assert_type_info::<Snapshot<'static, Runtime>>(); assert_type_info::<Event<'static, Runtime>>(); assert_type_info::<Proof<'static, Runtime>>(); }
+""", about="borrowed members whose referent is an associated type of a parameter: the bound the derive generates is on what the body uses")
+case("c20_bounds_later_param_uncovered", "C20", "R20.4", "fail", """
+#[derive(TypeInfo)] #[scale_info(bounds(), skip_type_params(T))] struct S<T, U: TypeInfo + 'static> { t: PhantomData<T>, u: U }
+fn main() {}
+""", twin="c20_derive_twin", about="bounds() that leaves a later parameter uncovered while an earlier uncovered one is skipped")
+case("c20_bounds_later_param_uncovered_enum", "C20", "R20.4", "fail", """
+#[derive(TypeInfo)] #[scale_info(skip_type_params(T))] #[scale_info(bounds(V: TypeInfo + 'static))]
+enum E<T, U, V> { A(PhantomData<T>), B(U), C(V) }
+fn main() {}
+""", twin="c20_derive_twin", about="the same with three parameters: skipped, uncovered, bound")
 case("c20_bounds_projection_twin", "C20", "R20.4", "pass", """
 trait Config { type Balance; }
 #[derive(TypeInfo)] struct Cfg;
